@@ -316,6 +316,15 @@ def save_replay(pid, r, n, d):
         f.write('solver command: %s\n\n' % ' '.join(shlex.quote(a) for a in r.job.argv))
         f.write('---- counterexample trace (solver output) ----\n')
         f.write(log[-400000:])
+    try:
+        if str(r.job.meta.get('engine', '')).startswith('E2'):
+            sched = e2_schedule(log, n)
+            if sched:
+                with open(rp, 'a') as f:
+                    f.write('\n---- interleaving of the counterexample: runs of memory-cell writes per VM thread (m<obj>_<cell> shared, s<obj>_<cell> thread-private copy; object names are listed at the top of the generated <cfg>.cbmc.c) ----\n')
+                    f.write(sched + '\n')
+    except Exception as e:
+        pass
     hook = r.job.meta.get('replay')
     if hook:
         try:
@@ -327,6 +336,34 @@ def save_replay(pid, r, n, d):
             with open(rp, 'a') as f:
                 f.write('\n[native replay failed to run: %s]\n' % e)
     return rp
+
+
+def e2_schedule(log, propname):
+    """compress the CBMC trace of an E2 counterexample into the interleaving: runs of consecutive shared-cell writes / harness
+    events of one VM thread, labelled with the real (translated) function they happen in"""
+    i = log.find('Trace for ' + propname)
+    if i < 0:
+        i = log.find('Counterexample:')
+    if i < 0:
+        return ''
+    seg = log[i:]
+    j = seg.find('Violated property')
+    seg = seg[:j + 400] if j > 0 else seg[:300000]
+    out, last = [], None
+    for m in re.finditer(r'State \d+ file \S+ function (\S+) line \d+ thread (\d+)\n-+\n\s+(\S+?)=([^ \n]+)', seg):
+        fn, th, var, val = m.groups()
+        if not re.match(r'(m\d+_\d+|s\d+_\d+|vm_status)', var) or fn.startswith('vm_shadow_') or fn in ('__CPROVER_initialize', 'main'):
+            continue
+        key = (th, '')
+        if last and last[0] == key:
+            last[1].append('%s=%s' % (var, val))
+        else:
+            last = [key, ['%s=%s' % (var, val)]]
+            out.append(last)
+    lines = []
+    for (th, fn), evs in out:
+        lines.append('  thread %s writes %s' % (th, ' '.join(evs[:12]) + (' ...' if len(evs) > 12 else '')))
+    return '\n'.join(lines[-400:])
 
 
 def write_evidence(pid, mod, tier, seed, results, t0, nviol, knowns=(), noverdict=(), note=None):
